@@ -213,8 +213,8 @@ func ParseExpr(s string) (e Expr, err error) {
 type parseErr string
 
 func (p *exprParser) fail(f string, a ...interface{}) { panic(parseErr(fmt.Sprintf(f, a...))) }
-func (p *exprParser) peek() lexTok                     { return p.toks[p.p] }
-func (p *exprParser) next() lexTok                     { t := p.toks[p.p]; p.p++; return t }
+func (p *exprParser) peek() lexTok                    { return p.toks[p.p] }
+func (p *exprParser) next() lexTok                    { t := p.toks[p.p]; p.p++; return t }
 func (p *exprParser) isOp(s string) bool {
 	t := p.peek()
 	return t.kind == "op" && t.text == s
